@@ -158,10 +158,14 @@ def jDecList (mm : MMX) (via : Str) (decl : Nat) : List JV → Option (List (SNo
     | _, _ => none
 end
 
+/-- `_to_ref_from_obj`: the class of the target and its token; a dangling reference cannot be written -/
+def jrefOf (mm : MMX) (o : Opts) (render : Path → Str) (roots : List (SNode Path)) (p : Path) : Option JRef :=
+  match nodeAt roots p with
+  | some n => some ⟨mm.cname n.cls, tokenOf mm o render roots p⟩
+  | none => none
+
 def jEncodeDoc (mm : MMX) (o : Opts) (render : Path → Str) (roots : List (SNode Path)) : Option (List JV) :=
-  (mapRefsL (fun p => match nodeAt roots p with
-      | some n => some (⟨mm.cname n.cls, tokenOf mm o render roots p⟩ : JRef)
-      | none => none) roots).map fun rs => rs.map (jEnc mm o true 0)
+  (mapRefsL (jrefOf mm o render roots) roots).map fun rs => rs.map (jEnc mm o true 0)
 
 mutual
 /-- `to_obj` registers a uuid in the resource but does not give it to the object -/
